@@ -231,6 +231,107 @@ def prompt_delimits(ctx, pexpect, pxssh_mod, n):
     ctx.oracle_stats['prompt_streams'] = tried
 
 
+def shell_flavours(ctx, pexpect, pxssh_mod, n):
+    """the REAL login() (prompt reset on) and prompt() against an echoing fake remote shell of each flavour (sh / csh / zsh: each
+    understands only its own way of setting the prompt), the output cut into reads at random: login succeeds, and afterwards
+    prompt() delimits every command's echo + output exactly"""
+    import re as _re
+    rng = ctx.rng
+    tried = 0
+    real_spawn = pxssh_mod.spawn._spawn
+    pxssh_mod.spawn._spawn = lambda self, command, args=[], preexec_fn=None, dimensions=None: None
+    try:
+        for it in range(n):
+            flavour = ['sh', 'csh', 'zsh'][it % 3]
+            state = {'prompt': rng.choice(['user@host:~$ ', 'host% ', '[me@box ~]$ ', 'host# ']), 'stage': 'password', 'partial': '', 'lines': []}
+            queue = []
+
+            def emit(text):
+                i = 0
+                while i < len(text):
+                    k = rng.choice([1, 2, 3, 7, 40, 200])
+                    queue.append(text[i:i + k].encode('latin-1'))
+                    i += k
+
+            def line(l):
+                state['lines'].append(l)
+                if state['stage'] == 'password':
+                    state['stage'] = 'shell'
+                    emit('\r\nLast login: today from somewhere\r\n' + state['prompt'])
+                    return
+                emit(l + '\r\n')                       # terminal echo
+                m_sh = _re.fullmatch(r"PS1='(.*)'", l)
+                m_csh = _re.fullmatch(r"set prompt='(.*)'", l)
+                if l == '' or l == 'unset PROMPT_COMMAND' or l == 'prompt restore;':
+                    pass
+                elif m_sh and flavour == 'sh':
+                    state['prompt'] = m_sh.group(1).replace('\\$', '$')
+                elif m_sh and flavour == 'zsh':
+                    # zsh keeps a backslash it does not know and expands %(!.#.$) to $ for an ordinary user
+                    state['prompt'] = m_sh.group(1).replace('%(!.#.$)', '$')
+                elif m_csh and flavour == 'csh':
+                    state['prompt'] = m_csh.group(1).replace('\\$', '$')
+                elif m_csh and flavour == 'zsh':
+                    pass                              # `set` only assigns positional parameters
+                elif l.startswith('echo '):
+                    emit(l[5:] + '\r\n')
+                else:
+                    emit('%s: Command not found.\r\n' % l.split('=')[0].split(' ')[0])
+                emit(state['prompt'])
+
+            class P(pxssh_mod.pxssh):
+                def read_nonblocking(self_, size=1, timeout=None):
+                    if not queue:
+                        raise pexpect.TIMEOUT('the remote side is silent')
+                    return queue.pop(0)
+
+                def send(self_, s_):
+                    if isinstance(s_, bytes):
+                        s_ = s_.decode('latin-1')
+                    state['partial'] += s_
+                    while '\n' in state['partial']:
+                        l, state['partial'] = state['partial'].split('\n', 1)
+                        line(l)
+                    return len(s_)
+
+                def isalive(self_):
+                    return True
+
+                def close(self_, force=True):
+                    self_.closed = True
+
+                def __str__(self_):
+                    return '<fake %s session>' % flavour
+            p = P()
+            p.delayafterread = None
+            p.closed = False
+            emit('password: ')
+            try:
+                ok = p.login('host', 'user', 'secret', auto_prompt_reset=True, sync_original_prompt=False, login_timeout=5)
+            except Exception as e:
+                ctx.hit('C17/flavour-login', 'login() to an echoing %s shell (prompt %r) raised %r' % (flavour, state['prompt'], e), {'flavour': flavour, 'lines': state['lines']})
+                return
+            tried += 1
+            if ok is not True:
+                ctx.hit('C17/flavour-login', 'login() to an echoing %s shell returned %r' % (flavour, ok), {'flavour': flavour, 'lines': state['lines']})
+                return
+            if state['lines'].count('secret') != 1:
+                ctx.hit('C17/flavour-login', 'the password was sent %d times' % state['lines'].count('secret'), {'flavour': flavour, 'lines': state['lines']})
+                return
+            for k in range(rng.randint(1, 3)):
+                word = rng.choice(['hello', 'a b c', '$HOME #1', '[PEXPECT', 'x' * 300])
+                p.sendline('echo ' + word)
+                r = p.prompt(timeout=5)
+                want = ('echo %s\r\n%s\r\n' % (word, word)).encode('latin-1')
+                if r is not True or p.before != want:
+                    ctx.hit('C17/flavour-prompt', '%s shell, after login(): command %d `echo %s`: prompt() returned %r with before=%r, the echo and the output are %r'
+                            % (flavour, k + 1, word[:20], r, p.before[:80], want[:80]), {'flavour': flavour, 'lines': state['lines']})
+                    return
+    finally:
+        pxssh_mod.spawn._spawn = real_spawn
+    ctx.oracle_stats['shell_flavour_sessions'] = tried
+
+
 def run(ctx):
     pexpect = common.preflight()
     from pexpect import pxssh as pxssh_mod
@@ -289,6 +390,7 @@ def run(ctx):
     else:
         ctx.corr_broken.append(('tree-login', {'error': 'model did not build'}))
     prompt_delimits(ctx, pexpect, pxssh_mod, 3000 if thorough else 400)
+    shell_flavours(ctx, pexpect, pxssh_mod, 300 if thorough else 45)
     FINISH['extra'] = {'exhaustive': bool(complete_all)}
 
 
